@@ -150,7 +150,10 @@ CLAIMS['C14'] = dict(
           "the public InvalidData message and NOTHING written), C14_de_refused_{seq,set,map} (refused over ANY reader "
           "state, i.e. before any length is read), C14_fixed_ok_array, C14_agrees_with_schema_examples / "
           "C14_agrees_nonzero_examples (run-time refusal and ZSTSequence verdict agree; kernel-evaluated on 7 "
-          "zero-sized shapes incl. the F2 witness). Differential run over 28 collection types (incl. VecDeque, "
+          "zero-sized shapes incl. the F2 witness), and for EVERY element type: C14_agreement_seq / C14_agreement_set / "
+          "C14_agreement_builtin (an element type empty in memory and on the wire is refused by both codecs and its "
+          "collection's container gets the ZSTSequence verdict: wireZero => ZeroSized by induction over the universe, "
+          "then validate_flags_zst_root through the is_zero_size iff). Differential run over 28 collection types (incl. VecDeque, "
           "LinkedList, hash/btree/index sets and maps, 3 hashers) x zero-sized element shapes x claimed lengths "
           "{0,1,2,2^32-1}, both directions, with counting reader/writer (0 read calls, 0 bytes written)."),
     technique="Lean 4 proof (refusal lemmas over an arbitrary reader) + differential check with counting reader/writer",
